@@ -306,7 +306,7 @@ func genC10(g *Gen) {
 
 // C11: Stop with connections in every state
 func genC11(g *Gen) {
-	states := []string{"none", "idle", "pipelining", "handler-blocked-on-client", "starttls-pending"}
+	states := []string{"none", "idle", "pipelining", "handler-blocked-on-client", "starttls-pending", "blocked-then-unbind"}
 	for _, st := range states {
 		for _, nconn := range []int{1, 4} {
 			for _, double := range []bool{false, true} {
@@ -329,6 +329,12 @@ func genC11(g *Gen) {
 						s.send(c, s.req("normal", "W"))
 					case "starttls-pending":
 						s.send(c, s.req("starttls", "w", "hs"))
+					case "blocked-then-unbind":
+						// the read loop has ended (Unbind) while a handler is still blocked
+						// writing to a client that does not read: the connection is in teardown
+						s.op(fmt.Sprintf("stall %d 1", c))
+						s.send(c, s.req("normal", "W"))
+						s.send(c, s.req("unbind"))
 					}
 				}
 				s.op("stop")
